@@ -31,6 +31,8 @@ def main(tier, replay=None):
         f_bug = ex.submit(vlib.tlc, "ExcMachine", "Exc_bug.cfg", wd, 2, "2g")
         f_bug2 = ex.submit(vlib.tlc, "ExcMachine", "Exc_bug_msgobj.cfg", wd, 2, "2g")
         f_bug3 = ex.submit(vlib.tlc, "ExcMachine", "Exc_bug_catchobj.cfg", wd, 2, "2g")
+        f_find = ex.submit(vlib.tlc, "ExcMachine", "Exc_finding_filtertry.cfg", wd, 2, "2g")      # model side of the open finding F-C07-filter-expression-runs-try
+        f_kept = ex.submit(vlib.tlc, "ExcMachine", "Exc_filtertry_kept.cfg", wd, 4, "4g")         # ... and of a design that keeps the pending exception
         lib = f_lib.result()
         harness = vlib.build_harness(lib, ["h_exc.c"], os.path.join(wd, "h_exc"))
         r_exh, r_edge, r_bug = f_exh.result(), f_edge.result(), f_bug.result()
@@ -45,6 +47,10 @@ def main(tier, replay=None):
         raise vlib.ToolError("ExcMachine does not refute the as-found exception_catch (record re-read after a filter comparison)")
     if f_bug2.result().ok:
         raise vlib.ToolError("ExcMachine does not refute the as-found exception_throw (object stored before the message is formatted)")
+    chk.notes.append("ExcMachine/Exc_finding_filtertry.cfg (a filter expression that runs a try block, exception_try as found): block structure %s; "
+                     "Exc_filtertry_kept.cfg (pending exception kept across the inner try): %s"
+                     % ("holds - the model no longer shows the open finding" if f_find.result().ok else "refuted (open finding F-C07-filter-expression-runs-try)",
+                        "holds" if f_kept.result().ok else "refuted"))
     edges = list(r_edge.lines("EDGE"))
     vlib.require_ops(edges, ("try", "throw", "thrownested", "mark", "endbody", "endhandler"), "ExcMachine")
     chk.lap("built + TLC")
